@@ -1,34 +1,54 @@
 /-
 C11 — the transaction pool's contents and bookkeeping are always mutually consistent.
 
-Model: `CkbVerif/Model/Pool.lean` (PoolMap + the TxPool-level operations, as the code is).
-What is proved here, for ALL operation sequences (induction over the history):
-  * `pool_inv_step_partial` / `pool_inv_run_partial`: the clauses "no two pooled transactions spend the
-    same cell", "`edges.inputs` lists exactly the inputs of the pooled transactions" and "ids are unique"
-    (`InputsOK`) are preserved by every modelled operation except `commit` (see below);
+Model: `CkbVerif/Model/Pool.lean` (PoolMap + the TxPool-level operations, as the code is; the repairs
+are switches of `Cfg`: `fixF2`, `fixPanic` — both in /repo — and the candidate repairs `fixF3`, `fixMid`,
+not in /repo).  `Op` / `step` / `run`: all ten operations (add, rm, rmd, set, commit, hdr, limit, expire,
+detach, submit), defined in `Lemmas/PoolLift.lean`.
+
+PROVED for ALL operation sequences (induction over the history; every state, every configuration):
+  * `pool_inv_step_partial` / `pool_inv_run_partial`: `PoolInvP` = `EdgeOK` ∧ `LimitOK` ∧ `AggInv` is an
+    invariant.  Spelled out by the corollaries
+      - `no_double_spend_after_any_history`      no two pooled transactions spend the same cell;
+                                                 `edges.inputs` = the pooled inputs, as a function;
+      - `counts_and_totals_after_any_history`    pending / gap / proposed counters and total size / cycles;
+      - `links_after_any_history`                link keys = pooled ids, parents and children converse to
+                                                 each other, both ends of every link pooled;
+      - `ancestor_limit_after_clean_history`     ancestors_count ≤ max_ancestors_count   (clean histories);
+      - `aggregates_after_clean_history_partial` all eight aggregates = recomputation from the links, for
+                                                 the repaired remove_entry_and_descendants (the code in /repo),
+                                                 on clean histories;
+      - `derived_links_after_any_history`        a link ⇔ an actual spend / dependency between two pooled
+                                                 transactions; `edges.deps` = the pooled cell deps;
+      - `calcAnc_is_reachability`                the closure the pool computes is graph reachability.
+    "clean history" = the ghost flag `ghostBad` of the final state is false, i.e. neither of the two
+    remaining bad patterns occurred: an entry inserted while one of its children is pooled (F3), or
+    `remove_entry` of an entry with both pooled ancestors and pooled descendants (remove-between).
+    `commit` is included: `resolve_conflict` strips the input edge before it removes the entry; at the
+    edge level removals commute with the strip and the strip is the identity once the owner is gone
+    (`Lemmas/PoolEdge.lean`, `strip_then_remove`).
   * `rbf_admit_iff`, `rbf_fee_rule`, `rbf_no_coexistence`: the replacement rule and its effect.
-What is proved by concrete witnesses (kernel evaluation of the model on 3-transaction histories, each
-replayed on the real code: corpus/C11/*.ops): the *aggregates* clause of the property is FALSE for the
-code as written — `f2_*`, `f3_*`, `mid_*` — and `add_entry` can panic — `panic_witness`.
-`f2_repaired_witness` shows the same F2 history is consistent under `Cfg.fixF2` (work/C11-fix-F2.diff).
+PROVED by concrete witnesses (kernel evaluation on 3-transaction histories, each replayed on the real code:
+corpus/C11/*.ops): the aggregates clause is FALSE on histories with the two patterns — `f3_*`, `mid_*` —
+and was false for the unrepaired code — `f2_witness`; `add_entry` could panic — `panic_witness`;
+`*_repaired_witness`: the same histories under the corresponding repair are consistent.
 
-NOT proved (tested by the correspondence run and the independent oracle only): the links clause
-(`links = derived links`), the counts/totals clause, the ancestor-limit clause, and the aggregates clause
-on histories that avoid the three patterns (remove-with-descendants below a surviving parent, parent added
-after its children, remove_entry between an ancestor and a descendant).  The full statement that was
-the target is kept here for reference:
-
+NOT proved (correspondence run + independent oracle only):
+  * `edges.header_deps` = the pooled header deps (the header-dep map is in the model and in the tie, not in
+    the invariant);
+  * the aggregates and the limit on histories with the two patterns (false there: the witnesses), and
+    the aggregates for the candidate repairs `fixF3` / `fixMid` (witnesses + correspondence only).
+The full target statement (kept for reference):
   theorem pool_inv_step (s : Pool) (op : Op) : PoolInv s → PoolInv (step s op)
-    where PoolInv s := InputsOK s ∧ LinksOK s ∧ (∀ e ∈ s.entries, e.anc = recomputeAnc s e ∧ e.desc = recomputeDesc s e)
-                       ∧ CountsOK s ∧ (∀ e ∈ s.entries, e.anc.count ≤ s.cfg.maxAnc) ∧ EdgesOK s
-
-  It is false as stated (witnesses below); with `fixF2` and without the other two patterns it is open.
-`commit` (TxPool::remove_committed_tx -> PoolMap::resolve_conflict) removes the input edge before the
-entry; the intermediate state is outside `InputsOK`, and the step lemma for it is not proved.
+    where PoolInv s := InputsOK s ∧ links = derivedLinks ∧ (∀ e, e.anc = recomputeAnc s e ∧ e.desc = recomputeDesc s e)
+                       ∧ CountsOK s ∧ (∀ e, e.anc.count ≤ s.cfg.maxAnc) ∧ EdgesOK s
+  It is false as stated for the code as it is (F3, remove-between).
 -/
 import CkbVerif.Lemmas.PoolEdge
 import CkbVerif.Lemmas.PoolLimit
 import CkbVerif.Lemmas.PoolLinks
+import CkbVerif.Lemmas.PoolAgg
+import CkbVerif.Lemmas.PoolDerived
 namespace CkbVerif.C11
 open CkbVerif.Pool
 
@@ -43,8 +63,14 @@ open CkbVerif.Pool
       `ancestors_count` is at most `max_ancestors_count`;
     * `LinksOK s`: the link map's keys are exactly the pooled ids, parents / children lists are duplicate-free
       and converse to each other (every link joins two pooled transactions), and every id that
-      `edges.deps` / `edges.inputs` names as user of an out-point is pooled and references that out-point. -/
-def PoolInvP (s : Pool) : Prop := EdgeOK (edge s) ∧ LimitOK s ∧ LinksOK s
+      `edges.deps` / `edges.inputs` names as user of an out-point is pooled and references that out-point;
+    * the aggregates clause inside `AggInv s`: for the repaired `remove_entry_and_descendants`
+      (`cfg.fixF2`, the code in /repo since 77bbef6) and as long as neither bad pattern occurred
+      (`ghostBad = false`), all eight aggregates of every entry equal the recomputation from the links;
+    * `DerivedOK s`: `p` is linked as a parent of `c` only if `c` references an out-point of `p` or consumes
+      a cell `p` uses as a cell dep, every reference to an actual output of a pooled transaction is a link,
+      and `edges.deps` records every cell dep of every pooled transaction. -/
+def PoolInvP (s : Pool) : Prop := EdgeOK (edge s) ∧ LimitOK s ∧ AggInv s ∧ DerivedOK s
 
 theorem linksOK_empty (c : Cfg) (chain : List Nat) : LinksOK (empty c chain) :=
   ⟨List.nodup_nil, List.nodup_nil, fun _ _ h => (by cases h), fun _ h => (by cases h),
@@ -52,13 +78,15 @@ theorem linksOK_empty (c : Cfg) (chain : List Nat) : LinksOK (empty c chain) :=
     fun _ => ⟨fun h => (by cases h), fun ⟨⟨_, h, _⟩, _⟩ => (by cases h)⟩⟩
 
 theorem poolInvP_empty (c : Cfg) (chain : List Nat) : PoolInvP (empty c chain) :=
-  ⟨edgeOK_empty c chain, (fun _ _ h => (by cases h)), linksOK_empty c chain⟩
+  ⟨edgeOK_empty c chain, (fun _ _ h => (by cases h)), ⟨linksOK_empty c chain, fun _ _ _ h => (by cases h)⟩,
+    ⟨fun _ h => (by cases h), fun _ h => (by cases h), fun _ h => (by cases h)⟩⟩
 
 /-- PARTIAL (see the header): every one of the ten operations — `commit` with its two-phase
     `resolve_conflict` included — preserves `PoolInvP`, from every state, for every configuration
     (code as written or any combination of the repairs). -/
 theorem pool_inv_step_partial (s : Pool) (op : Op) (h : PoolInvP s) : PoolInvP (step s op) :=
-  ⟨edgeOK_step s op h.1, limitOK_closed.step s op h.2.1, linksOK_closed.step s op h.2.2⟩
+  ⟨edgeOK_step s op h.1, limitOK_closed.step s op h.2.1, aggInv_closed.step s op h.2.2.1,
+    (p4_closed.step s op ⟨h.1, h.2.2.1.1, h.2.2.2⟩).2.2⟩
 
 theorem pool_inv_run_partial (c : Cfg) (chain : List Nat) (ops : List Op) : PoolInvP (run (empty c chain) ops) := by
   suffices ∀ s, PoolInvP s → PoolInvP (run s ops) from this _ (poolInvP_empty c chain)
@@ -114,7 +142,7 @@ theorem links_after_any_history (c : Cfg) (chain : List Nat) (ops : List Op) :
     (∀ p c, p ∈ parentsOf s.links c ↔ c ∈ childrenOf s.links p) ∧
     (∀ p c, p ∈ parentsOf s.links c → (∃ e ∈ s.entries, e.tx.id = p) ∧ (∃ e ∈ s.entries, e.tx.id = c)) := by
   intro s
-  have h := (pool_inv_run_partial c chain ops).2.2
+  have h := (pool_inv_run_partial c chain ops).2.2.1.1
   have hk : ∀ id, id ∈ keys s.links ↔ ∃ e ∈ s.entries, e.tx.id = id := by
     intro id
     rw [h.keysEq id]
@@ -125,6 +153,43 @@ theorem links_after_any_history (c : Cfg) (chain : List Nat) (ops : List Op) :
   refine ⟨hk, h.struct.sym, fun p c hp => ?_⟩
   obtain ⟨a, b⟩ := h.struct.parent_key hp
   exact ⟨(hk p).mp a, (hk c).mp b⟩
+
+/-- THE LINKS CLAUSE, derived direction, after ANY history: a parent/child link between two pooled transactions
+    corresponds to an actual reference (`c` spends or depends on an out-point of `p`, or consumes a cell that
+    `p` only references), and vice versa every reference to an actual output of a pooled transaction is a
+    link; `edges.deps` lists exactly the cell deps of the pooled transactions. -/
+theorem derived_links_after_any_history (c : Cfg) (chain : List Nat) (ops : List Op) :
+    let s := run (empty c chain) ops
+    (∀ tp ∈ txs s, ∀ tc ∈ txs s, tp.id ∈ parentsOf s.links tc.id → refsTx tp tc ∨ consumesDep tp tc) ∧
+    (∀ tp ∈ txs s, ∀ tc ∈ txs s, spendsOut tp tc → tp.id ∈ parentsOf s.links tc.id) ∧
+    (∀ o id, id ∈ depUsers s o ↔ ∃ t ∈ txs s, t.id = id ∧ o ∈ t.deps) := by
+  intro s
+  have h := pool_inv_run_partial c chain ops
+  refine ⟨h.2.2.2.sound, h.2.2.2.complete, fun o id => ⟨h.2.2.1.1.depOwn o id, ?_⟩⟩
+  rintro ⟨t, ht, rfl, ho⟩
+  exact h.2.2.2.depRecd t ht o ho (by simp)
+
+/-- the configuration is never changed by an operation -/
+theorem cfg_after_any_history (c : Cfg) (chain : List Nat) (ops : List Op) : (run (empty c chain) ops).cfg = c :=
+  (cfg_closed c).run _ ops rfl
+
+/-- THE AGGREGATES CLAUSE for the code as it is in /repo (repaired `remove_entry_and_descendants`), on every
+    history in which neither remaining bad pattern occurred (`ghostBad` stays false: no entry was inserted
+    while one of its children was pooled, no `remove_entry` hit an entry with both pooled ancestors and
+    pooled descendants): the ancestors and descendants aggregates (count, size, cycles, fee) of every
+    entry equal the recomputation from the current links.  PARTIAL with respect to the property: the two
+    patterns are excluded by hypothesis (they are the known findings F3 and remove-between). -/
+theorem aggregates_after_clean_history_partial (c : Cfg) (hfix : c.fixF2 = true) (chain : List Nat) (ops : List Op)
+    (hclean : (run (empty c chain) ops).ghostBad = false) :
+    ∀ e ∈ (run (empty c chain) ops).entries,
+      e.anc = recomputeAnc (run (empty c chain) ops) e ∧ e.desc = recomputeDesc (run (empty c chain) ops) e :=
+  (pool_inv_run_partial c chain ops).2.2.1.2 (by rw [cfg_after_any_history]; exact hfix) hclean
+
+/-- the closure the model computes (`calc_ancestors`) is the set of nodes reachable along parent links,
+    after any history -/
+theorem calcAnc_is_reachability (c : Cfg) (chain : List Nat) (ops : List Op) (x y : Nat) :
+    y ∈ calcAnc (run (empty c chain) ops).links x ↔ Anc (run (empty c chain) ops).links x y :=
+  mem_calcAnc (pool_inv_run_partial c chain ops).2.2.1.1.struct x y
 
 /-! ## concrete histories -/
 
@@ -142,6 +207,13 @@ def chainOps : List Op := [.add tx10 .pending 1, .add tx11 .pending 2, .add tx12
 
 /-- non-vacuity of the invariant theorem and of `aggOK`: a chain of three is consistent -/
 example : aggOK (run (empty cfg0 [0]) chainOps) = true ∧ (run (empty cfg0 [0]) chainOps).entries.length = 3 := by
+  decide +kernel
+
+/-- non-vacuity of `aggregates_after_clean_history_partial`: a history with insertions, a removal with
+    descendants below a surviving parent, a root removal and a status change is clean -/
+example :
+    let s := run (empty { cfg0 with fixF2 := true } [0]) (chainOps ++ [.set 12 .proposed, .rmd 12, .rm 10])
+    s.ghostBad = false ∧ s.cfg.fixF2 = true ∧ s.entries.length = 1 ∧ aggOK s = true := by
   decide +kernel
 
 /-- F2 (corpus/C11/f2-remove-with-descendants.ops): tx10 -> tx11 -> tx12, remove tx11 with descendants:
